@@ -190,6 +190,11 @@ func c08Instance(c *fw.Ctx, kind c08Kind, mtu int, inputs [][]byte, inKinds []st
 		// A gets a private copy it may keep forever; B gets one that is overwritten after the call
 		inA := fw.Exact(in)
 		inB := fw.Exact(in)
+		canary := func() bool { return false }
+		if call%2 == 1 {
+			// a caller buffer with spare capacity: the bytes beyond len are the caller's too
+			inA, canary = fw.Roomy(in, 24)
+		}
 		pristine := append([]byte(nil), in...)
 		var outA, outB [][]byte
 		if pv, st := fw.Guard(func() { outA = a.Payload(uint16(mtu), inA) }); pv != nil {
@@ -205,6 +210,10 @@ func c08Instance(c *fw.Ctx, kind c08Kind, mtu int, inputs [][]byte, inKinds []st
 		// input untouched
 		if !bytes.Equal(inA, pristine) || !bytes.Equal(inB, pristine) {
 			c.Fail("C08/"+kind.name+"/input-modified", "the payloader modified the caller's input buffer", wit(call))
+			return
+		}
+		if canary() {
+			c.Fail("C08/"+kind.name+"/input-modified/beyond-len-within-capacity", "the payloader wrote into the spare capacity of the caller's input slice", wit(call))
 			return
 		}
 		callerMem = append(callerMem, rangeOfBytes(inA), rangeOfBytes(inB))
